@@ -778,11 +778,59 @@ def progress_guard(an, prog, b, comp):
             if okm:
                 return True, "strict progress: back edge requires %s != 0 and %s" % (canon(peel(x))[:80], whym)
             return False, "guard `%s == 0` found but the measured value is not a recognised consumed-bytes count: %s" % (canon(peel(x))[:120], whym)
+    # Many0-style guard: `if rest.len() == cur.len() { leave }` where rest is a tail of cur (a parser remainder, by the
+    # suffix facts) and the next iteration continues on rest: the cursor strictly shrinks on every iteration that stays
+    okm0, whym0 = nothing_consumed_guard(an, prog, b, cs)
+    if okm0:
+        return True, whym0
     # packet loop: while !cur.is_empty() { match dispatch(cur) { Ok(p) => cur = p.remaining, Err => break } }
     okp, whyp = packet_loop_progress(an, prog, b, comp)
     if okp:
         return True, whyp
     return False, whyp
+
+
+def nothing_consumed_guard(an, prog, b, cs):
+    from ..suffix import Suffix
+    from .c02 import underlying_locals
+    if not hasattr(an, "_suffix"):
+        an._suffix = Suffix(prog)
+    sf = an._suffix
+    sl = an.slicer(b)
+    facts = None
+    for blk in sorted(cs):
+        t = b.term(blk)
+        if t["k"] != "switch":
+            continue
+        e, neg = strip_not(an.op(b, t["op"]))
+        be = bool_edges(t, neg)
+        if not be or e[0] != "binop" or e[1] not in ("Eq", "Ne"):
+            continue
+        tt, ff = be
+        leave = tt if e[1] == "Eq" else ff
+        if leave in cs or has_cycle(b, cs - {blk}):
+            continue
+        # operands: two len() results
+        op = t["op"]
+        cmp_ = None
+        if op.get("k") in ("copy", "move"):
+            for dd in sl.defs.get(op["place"]["l"], []):
+                if dd[0] == "assign" and dd[3]["k"] == "binop" and dd[3]["op"] in ("Eq", "Ne"):
+                    cmp_ = dd[3]
+        if cmp_ is None:
+            continue
+        if facts is None:
+            facts = sf.facts(b)
+        st = facts["at_term"].get(blk)
+        la, lb = sf._oplocal(cmp_["a"]), sf._oplocal(cmp_["b"])
+        if st is None or la is None or lb is None:
+            continue
+        # NU[n] = slices s with n <= len(s);  NL[n] = slices s with len(s) <= n
+        for small, big in ((la, lb), (lb, la)):
+            nu, nl = st.get(("NU", small)), st.get(("NL", big))
+            if nu and nl and nu != "ALL" and nl != "ALL" and (set(nu) & set(nl)):
+                return True, "strict progress: the loop is left when `rest.len() == cursor.len()` (%s) and rest is a tail of the cursor (a parser remainder), so every iteration that continues shortens the input" % b.line(blk)
+    return False, ""
 
 
 def all_paths_inside(b, cs, a, target):
